@@ -177,7 +177,7 @@ func runCheck(id, only string, noEv bool) int {
 		}
 		return die(2, id, "the tree (or a contract clause) does not type-check: %s", strings.Join(perr, "; "))
 	}
-	prog, spkgs := ssautil.Packages(pkgs, ssa.NaiveForm|ssa.InstantiateGenerics)
+	prog, spkgs := ssautil.AllPackages(pkgs, ssa.NaiveForm|ssa.InstantiateGenerics)
 	for _, p := range spkgs {
 		if p != nil {
 			p.Build()
@@ -232,6 +232,17 @@ func runCheck(id, only string, noEv bool) int {
 			}
 			e.opaque[fn.String()] = true
 		case "verify", "lemma", "bounded":
+			if d.Kind == "verify" && hasArg(d, "modular") {
+				fn := resolveFn(all, pp, d.Fn)
+				if fn == nil {
+					return die(2, id, "%s:%d: function under contract %s not found (renamed or removed?)", d.File, d.Line, d.Fn)
+				}
+				c := &Contract{D: d, Fn: fn}
+				if m := argVal(d, "modifies"); m != "" {
+					c.Modifies = strings.Split(m, ",")
+				}
+				e.contracts[fn.String()] = c
+			}
 			if !hasProp(d, id) {
 				continue
 			}
